@@ -6,7 +6,7 @@ from props import dwtfam, c01
 
 ID = 'C14'
 PROPS_MODULE = 'Props.C14'
-THEOREMS = ['C14_forward_is_functional', 'C14_inverse_is_functional', 'C14_row_pair_on_last_axis']
+THEOREMS = ['C14_forward_is_functional', 'C14_inverse_is_functional', 'C14_row_pair_on_last_axis', 'C14_forward_per_axis', 'C14_inverse_per_axis']
 VO = ['theories/Props/C14.vo', 'theories/Run/RunDwt.vo']
 RULE = ('correspondence A: DWTForward/DWTInverse built from a 4-tuple whose column and row filters have DIFFERENT lengths (so an exchanged pair '
         'changes shapes as well as values), and from a 2-tuple, buffers read back by name and checked against the constructor order; '
